@@ -1,13 +1,13 @@
 #!/bin/bash
-# tools/sweep_seed2.sh [ids...]: for each sub-agent change in /tmp/seed2: confirm it (suite unchanged, demo fails
+# tools/sweep_seed2.sh [ids...]: for each sub-agent change in ${SEEDBASE:-/tmp/seed2}: confirm it (suite unchanged, demo fails
 # with / passes without), then apply it to /repo, run the property's quick check, undo it.
 ids=${@:-C01 C02 C03 C04 C05 C06 C07 C08 C09 C10 C11 C12 C13 C14 C15 C16 C17 C18 C19 C20}
 for id in $ids; do
   for k in 1 2; do
-    [ -f /tmp/seed2/out-$id/patch$k.diff ] || { echo "$id-$k: no patch"; continue; }
-    c=$(/verif/tools/confirm_seed2.sh $id $k 2>&1 | tail -1)
+    [ -f ${SEEDBASE:-/tmp/seed2}/out-$id/patch$k.diff ] || { echo "$id-$k: no patch"; continue; }
+    c=$(/verif/tools/confirm_seed.sh $id $k 2>&1 | tail -1)
     cd /repo && git diff --quiet || { echo "/repo dirty"; exit 3; }
-    if git -C /repo apply /tmp/seed2/out-$id/patch$k.diff 2>/dev/null; then
+    if git -C /repo apply ${SEEDBASE:-/tmp/seed2}/out-$id/patch$k.diff 2>/dev/null; then
       out=$(cd /verif && timeout 1200 ./check $id --tier quick 2>&1 | tail -4)
       git -C /repo checkout -- . ; git -C /repo clean -qfd fastavro
       echo "$c || check: $(echo "$out" | grep -E 'VIOLATION|MACHINERY' | head -1 | sed 's/replay=.*json//') :: $(echo "$out" | tail -1)"
